@@ -482,9 +482,10 @@ def property_dependency_check(prop):
     if dep is None:
         return
 
-    # The dependency is another Property of the same Section.
+    # The dependency is another Property of the same Section, referred to by its name;
+    # anything that is not text would be taken for a list index.
     try:
-        dep_obj = prop.parent.properties[dep]
+        dep_obj = prop.parent.properties[str(dep)]
     except KeyError:
         msg = "Property refers to a non-existent dependency object"
         yield ValidationError(prop, msg, LABEL_WARNING, validation_id)
